@@ -220,7 +220,99 @@ def replay(arg):
     return 1, mism
 
 
+def yaw_case(arg):
+    """one frame of well separated (estimate, ground truth) pairs with headings on / off the +-pi cut, evaluated by a real manager in base_link or in
+    map, tabulated by the analyzer -> Trace_Heading events (a = ground-truth yaw, b = estimate yaw in the ego frame, e = reported yaw error) and
+    the error summaries"""
+    import random as _r
+    import shutil
+    import tempfile
+
+    import numpy as np
+
+    from perception_eval.config import PerceptionEvaluationConfig
+    from perception_eval.evaluation.result.perception_frame_config import CriticalObjectFilterConfig, PerceptionPassFailConfig
+    from perception_eval.manager import PerceptionEvaluationManager
+    from perception_eval.tool import PerceptionAnalyzer3D
+
+    from ..build import EgoPose, frame_gt, obj3d
+
+    seed, k = arg
+    rng = _r.Random(seed * 7919 + k)
+    rendering = "map" if k % 2 else "base_link"
+    ego = EgoPose(rng.uniform(-300, 300), rng.uniform(-300, 300), 0.0, rng.uniform(-math.pi, math.pi)) if rendering == "map" else None
+    special = [(-3.0, 3.0), (3.0, -3.0), (-math.pi / 2, math.pi - 0.01), (0.5, -0.5), (2.0, -2.0), (-2.0, 2.0), (0.0, 0.0), (3.1, -3.1), (-3.1, 3.1)]
+    n = rng.randint(2, 6)
+    pairs_ = [rng.choice(special) if rng.random() < 0.7 else (rng.uniform(-math.pi, math.pi), rng.uniform(-math.pi, math.pi)) for _ in range(n)]
+    d = {"evaluation_task": "detection", "target_labels": ["car", "pedestrian"], "label_prefix": "autoware", "merge_similar_labels": False, "max_x_position": 100.0,
+         "max_y_position": 100.0, "center_distance_thresholds": [[1.0, 1.0]], "plane_distance_thresholds": [[2.0, 2.0]], "iou_2d_thresholds": None, "iou_3d_thresholds": None,
+         "min_point_numbers": [0, 0]}
+    tmp = tempfile.mkdtemp(prefix="verif_yaw_")
+    try:
+        ec = PerceptionEvaluationConfig([], "map" if rendering == "map" else "base_link", tmp, d)
+        mgr = PerceptionEvaluationManager(ec)
+    finally:
+        shutil.rmtree(tmp, ignore_errors=True)
+    fr = "map" if rendering == "map" else "base_link"
+    E, G = [], []
+    for i, (yg, ye) in enumerate(pairs_):
+        x = -40.0 + 15.0 * i
+        y = 6.0 * ((i % 3) - 1)
+        G.append(obj3d((x, y, 0.0), yaw=yg, size=(2.0, 4.0, 1.5), label="car", frame=fr, ego=ego, uuid="g%d" % i))
+        E.append(obj3d((x + 0.2, y - 0.1, 0.0), yaw=ye, size=(2.0, 4.0, 1.5), label="car", score=0.9 - 0.01 * i, frame=fr, ego=ego, uuid="e%d" % i))
+    crit = CriticalObjectFilterConfig(ec, ["car", "pedestrian"], max_x_position_list=[100.0, 100.0], max_y_position_list=[100.0, 100.0])
+    pfc = PerceptionPassFailConfig(ec, ["car", "pedestrian"], [2.0, 2.0])
+    info = dict(rendering=rendering, pairs=pairs_)
+    try:
+        mgr.add_frame_result(1000, frame_gt(G, ego=ego), E, crit, pfc)
+        an = PerceptionAnalyzer3D(ec)
+        an.add(mgr.frame_results)
+        gt_df, est_df = an.get_pair_results(an.df[an.df["status"].isin(["TP", "FP", "TN"])])
+        err = an.calculate_error("yaw")
+        if gt_df is None or len(err) != len(pairs_):
+            return [], dict(info, problem="%d yaw errors for %d pairs" % (len(err), len(pairs_)))
+        evs = []
+        for (_, grow), e_ in zip(gt_df.iterrows(), err):
+            i = int(round((float(grow["x"]) + 40.0) / 15.0))
+            yg, ye = pairs_[i]
+            dd = abs(math.atan2(math.sin(yg - ye), math.cos(yg - ye)))
+            w4 = int(round((1 - dd / math.pi) * 1e4))
+            evs.append(dict(a=int(round(yg * 1e4)) % 62832, b=int(round(ye * 1e4)) % 62832, w4=w4, w4r=w4, e=int(round(float(e_) * 1e4)), tolw=1, tole=1))
+        summ = an.summarize_error()
+        row = summ.loc[("ALL", "yaw")]
+        want = dict(average=float(np.average(err)), rms=float(np.sqrt(np.square(err).mean())), std=float(np.std(err)), max=float(np.max(np.abs(err))), min=float(np.min(np.abs(err))))
+        bad = [k_ for k_, v in want.items() if abs(float(row[k_]) - v) > 1e-9]
+        return evs, dict(info, errors=[float(v) for v in err], summary_mismatch=bad)
+    except Exception as ex:
+        return [], dict(info, problem="raised %r" % (ex,))
+
+
+def yaw_traces(ctx):
+    from .. import trace
+
+    outs = pmap(yaw_case, [(ctx.seed, k) for k in range(60 if ctx.quick else 600)], chunks=1)
+    evs, info = [], {}
+    tid = 0
+    for e_, inf in outs:
+        if inf.get("problem"):
+            ctx.violation("yaw-error-rows", inf["problem"], inf)
+            continue
+        if inf.get("summary_mismatch"):
+            ctx.violation("yaw-error-summary", "summaries %s of the yaw error differ from their definitions" % inf["summary_mismatch"], inf)
+        for ev in e_:
+            tid += 1
+            evs.append(dict(ev, tid=tid))
+            info[tid] = inf
+    rej = trace.validate(ctx, "Trace_Heading", evs, tag="Trace_Heading_" + ctx.pid)
+    ctx.traces += len(outs)
+    ctx.evaluations += len(evs)
+    ctx.nontrivial_count += sum(1 for _, inf in outs if any(abs(a - b) > math.pi for a, b in inf["pairs"]))
+    for t_, line, clause in rej:
+        ctx.violation("yaw-error:" + clause, "analyzer yaw error for pair %s rejected by Trace_Heading: %s" % (info[t_]["pairs"], clause), info[t_])
+
+
 def run(ctx: Ctx):
+    yaw_traces(ctx)
     maxcalls = 2
     for name, w in history.worlds(ctx.tier).items():
         consts = dict(w, MaxN="3", LcmN="6", MaxCalls=str(maxcalls), AsBuiltAliasedGT="FALSE", PoolN="9", PoolL="2520")
